@@ -484,6 +484,17 @@ func StandardWorld(name string) *World {
 		w.Accounts = append(w.Accounts, GenAccount{Name: "o1", Bal: map[string]string{"BIP": "100u"}})
 		w.Candidates = []GenCandidate{{Name: "v1", Owner: "o1", Reward: "o1", Control: "o1", Commission: 10, Validator: true, Stakes: []GenStake{{Owner: "o1", Coin: "BIP", Value: "1000u"}}}}
 		return w
+	case "WD": // durability: short periods so that payouts, validator updates and price updates happen every other block
+		w := &World{Name: "WD", StakePeriod: 2, ExpirePeriod: 3, InitialHeight: 201, KeepStates: 2}
+		w.Accounts = accs(4, map[string]string{"BIP": "1000000u"})
+		for i := 1; i <= 2; i++ {
+			o := fmt.Sprintf("o%d", i)
+			w.Accounts = append(w.Accounts, GenAccount{Name: o, Bal: map[string]string{"BIP": "10000u"}})
+			w.Candidates = append(w.Candidates, GenCandidate{Name: fmt.Sprintf("v%d", i), Owner: o, Reward: o, Control: o, Commission: uint64(10 * i), Validator: true,
+				Stakes: []GenStake{{Owner: o, Coin: "BIP", Value: fmt.Sprintf("%du", 2000*i)}, {Owner: "a4", Coin: "BIP", Value: "500u"}}})
+		}
+		withUSDT(w)
+		return w
 	case "W2":
 		w := &World{Name: "W2", StakePeriod: 6, ExpirePeriod: 5, InitialHeight: 10197400}
 		w.Accounts = accs(6, map[string]string{"BIP": "1000000u"})
@@ -496,4 +507,10 @@ func StandardWorld(name string) *World {
 		return w
 	}
 	panic("unknown world " + name)
+}
+
+// withUSDT adds the USDT token (coin id 1993) and the BIP/USDT pool the reward price rule reads.
+func withUSDT(w *World) {
+	w.Coins = append(w.Coins, GenCoin{ID: 1993, Symbol: "USDTE", Crr: 0, Max: "", Owner: "", Mintable: true, Burnable: true})
+	w.Pools = append(w.Pools, GenPool{Coin0: "BIP", Coin1: "USDTE", Reserve0: "1000000u", Reserve1: "10000u", Holders: map[string]string{"a1": "100000u"}})
 }
